@@ -113,6 +113,25 @@ def scenarios(tier):
                                     origins=origins(), dns=DNS, kinds='', horizon=400,
                                     features={'table': 'followup', 'rewrite': rewrite, 'request': 'GET', 'n_matching': 1,
                                               '_followup': [dict(static)[r'%s$' % p][0] for p in order], '_bound': 0}))
+    # follow-ups across route KINDS on one keep-alive connection: static, dynamic returning a Url,
+    # dynamic returning a literal response -- every ordered pair (and triple in the thorough tier)
+    kinds = {'/a': ('up', URLS[0]), '/b': ('up', URLS[1]), '/d/7': ('up', b'http://u2.test:81/dyn?id=7'), '/lit': ('literal', None)}
+    klass = plugins.reverse([(r'/a$', [URLS[0]]), (r'/b$', [URLS[1]])],
+                            {r'/d/(\d+)$': dyn_handler('url'), r'/lit$': dyn_handler('literal')}, name='VerifRev_fu_kinds')
+    seqs = list(itertools.product(kinds, repeat=2)) + (list(itertools.product(kinds, repeat=3)) if tier == 'thorough' else
+                                                       [('/a', '/lit', '/a'), ('/lit', '/a', '/lit'), ('/d/7', '/lit', '/b')])
+    for rewrite in (False, True):
+        fa = ['--threadless', '--enable-reverse-proxy'] + (['--rewrite-host-header'] if rewrite else [])
+        for order in seqs:
+            script = []
+            for pth in order:
+                script += [('send', REQS[0][1](pth.encode())), ('wait_idle',)]
+            script += [('close',)]
+            out.append(Scenario('fu-kinds/%s/%s' % ('rw' if rewrite else 'norw', '+'.join(order)), fa,
+                                flags_opts={'plugins': [klass]}, mode='local', clients=[dict(script=script)],
+                                origins=origins(), dns=DNS, kinds='', horizon=400,
+                                features={'table': 'followup_kinds', 'rewrite': rewrite, 'request': 'GET', 'n_matching': 1,
+                                          '_followup_kinds': [kinds[p] for p in order], '_bound': 0}))
     return out
 
 
@@ -146,6 +165,31 @@ def check(w):
         bodies = [r['body'] for r in res if r['ok']]
         if len(bodies) != len(want):
             out.append({'symptom': 'followup_request_not_answered', 'features': {}, 'detail': {'bodies': bodies}})
+        return out
+    if '_followup_kinds' in f:
+        ks = f['_followup_kinds']
+        seen = []
+        for oc in w.origin_conns:
+            for rq in getattr(oc, 'requests', []):
+                seen.append((oc.addr, rq['target']))
+        want_seen, want_bodies = [], []
+        oid = {('10.0.2.1', 80): b'u1:80', ('10.0.2.1', 8080): b'u1:8080', ('10.0.2.2', 81): b'u2:81'}
+        for kind, u in ks:
+            if kind == 'literal':
+                want_bodies.append(b'literal')
+            else:
+                cf = url_facts(u)
+                addr = (DNS[cf[1]], cf[2])
+                want_seen.append((addr, cf[3]))
+                want_bodies.append(b'%s|GET|%s' % (oid[addr], cf[3]))
+        if sorted(seen) != sorted(want_seen):
+            out.append({'symptom': 'followup_request_not_forwarded_to_its_route_upstream', 'features': {},
+                        'detail': {'seen': seen, 'want': want_seen, 'connect_log': w.connect_log}})
+        res, rest = oracles.parse_responses(rx, [b'GET'] * len(ks), eof=False)
+        bodies = [r['body'] for r in res if r['ok']]
+        if bodies != want_bodies or rest:
+            out.append({'symptom': 'followup_responses_not_one_per_request_from_its_route', 'features': {},
+                        'detail': {'bodies': bodies, 'want': want_bodies, 'rest': rest[:100]}})
         return out
     matching = f['_matching']
     detail = {'connect_log': w.connect_log, 'rx': rx[:200], 'matching': matching}
